@@ -152,6 +152,7 @@ pub fn run_case(kind: &str, t: &mut Toks) -> String {
                 items.join(",")
             )
         }
+        "tess" => crate::tess::run(t),
         _ => panic!("unknown case kind {kind}"),
     }
 }
